@@ -21,6 +21,8 @@ import warnings
 from typing import Any, Dict, List, Optional, Sequence, Tuple
 
 NASTY_FLOATS = [0.1 + 0.2, 1 / 3, 2 / 3, 0.1, 1e-3, 2.675, 1.0000000000000002, 123456.789e-5, 0.7, 1.1]
+RATIONALS = ['1/3', '7/3', '5/8', '2/3', '-1/3', '5/7', '22/7', '-7/4']     # exact constant fractions (as strings)
+POS_RATIONALS = ['1/3', '7/3', '5/8', '2/3', '5/7', '3/2']
 WEIRD_IDS = ['pt %d', 'pt.%d', 'pt-%d', 'PT%d', u'pü%d', 'p_%d']
 
 
@@ -75,9 +77,20 @@ class Gen:
             return self.rng.randrange(-3, 4)
         return self.rng.randrange(-8, 9) / 4
 
+    def rat(self, positive: bool = False) -> str:
+        """an exact constant non-integer fraction, written as the user would: '7/3'"""
+        self.count('with:rational-constant')
+        return self.rng.choice(POS_RATIONALS if positive else RATIONALS)
+
+    def const(self) -> str:
+        """a constant as it appears inside a formula"""
+        return self.rat() if self.rng.random() < 0.3 else repr(self.num())
+
     def vexpr(self, allow_t: bool = False):
         """a voltage: number, parameter or small formula (str / int / float)"""
         r = self.rng.random()
+        if r < 0.1:
+            return self.rat()
         if r < 0.3:
             return self.num()
         v = self.par('v')
@@ -86,10 +99,12 @@ class Gen:
         if allow_t:
             forms += ['{v}*t', 't*{c}', 'sin(t) + {v}', '{v} + t/2']
         f = self.rng.choice(forms)
-        return f.format(v=v, w=self.par('v'), c=repr(self.num()))
+        return f.format(v=v, w=self.par('v'), c='(%s)' % self.const())
 
     def fresh_dur(self):
         r = self.rng.random()
+        if r < 0.12:
+            return self.rat(positive=True)
         if r < 0.3:
             return self.rng.choice([1, 2, 3, 1.5, 0.75, 2.5] + ([0.1 + 0.2, 1.1] if self.floats else []))
         d = self.par('d')
@@ -108,8 +123,9 @@ class Gen:
         out = []
         for _ in range(self.rng.randrange(1, 3)):
             name = 'm%d' % self.rng.randrange(3)
-            begin = self.rng.choice([0, 0.25, self.frac(dur, 1, 4), self.par('d') + '/4'])
-            length = self.rng.choice([0.5, self.frac(dur, 1, 2), self.par('d'), 0.1 + 0.2 if self.floats else 0.25])
+            begin = self.rng.choice([0, 0.25, self.frac(dur, 1, 4), self.par('d') + '/4', self.rat(positive=True)])
+            length = self.rng.choice([0.5, self.frac(dur, 1, 2), self.par('d'), 0.1 + 0.2 if self.floats else 0.25,
+                                      self.rat(positive=True)])
             out.append((name, begin, length))
         self.count('with:measurements')
         return out
@@ -301,7 +317,7 @@ class Gen:
             pm = {}
             for p in self.rng.sample(vs, min(len(vs), self.rng.randrange(1, 3))):
                 pm[p] = self.rng.choice(['{q}', '{q}*2', '{q} + 1', '{q} - {r}', '{q}*{c}', '{c}']).format(
-                    q=self.par('v'), r=self.par('v'), c=repr(self.num()))
+                    q=self.par('v'), r=self.par('v'), c=self.const())
             kw['parameter_mapping'] = pm
         ms = sorted(inner.measurement_names)
         if ms and self.rng.random() < 0.6:
